@@ -5,6 +5,6 @@ CONSTANT Extra = {0, 1}
 CONSTANT ZeroTracked = FALSE
 CONSTANT MaxQ = 100
 CONSTANT W0 = 100
-CONSTANT TickW = {80}
+CONSTANT TickW = {0, 20, 80}
 CONSTANT Guarded = TRUE
 CHECK_DEADLOCK FALSE
